@@ -622,7 +622,41 @@ func c09SeekBoundaries(c *Ctx) {
 					vAtoms[a] = n
 				}
 			}
-			c.boundaryRuleFn("IndexPos.Seek", "negative", withClosures(fn), func(atoms map[string]int) int { return sameAs(atoms, vAtoms) }, -1-lf.k, 1, "newPos is rejected iff < 0")
+			// the test may sit in a helper that computes the position: there it is written in terms
+			// of the helper's own expression for the value it returns
+			cands := []map[string]int{vAtoms}
+			if ex, isEx := newPos.(*ssa.Extract); isEx {
+				if call, isCall := ex.Tuple.(*ssa.Call); isCall {
+					if h := call.Call.StaticCallee(); h != nil && newHelpers[h] {
+						for _, r := range returnsOf(h) {
+							if ex.Index >= len(r.Results) {
+								continue
+							}
+							rv := unspill(r, r.Results[ex.Index])
+							if _, isConst := rv.(*ssa.Const); isConst {
+								continue
+							}
+							if l := linearB(rv, 0); l.k == lf.k {
+								at := map[string]int{}
+								for a, n := range l.atoms {
+									if n != 0 {
+										at[a] = n
+									}
+								}
+								cands = append(cands, at)
+							}
+						}
+					}
+				}
+			}
+			c.boundaryRuleFn("IndexPos.Seek", "negative", withClosures(fn), func(atoms map[string]int) int {
+				for _, cand := range cands {
+					if s := sameAs(atoms, cand); s != 0 {
+						return s
+					}
+				}
+				return 0
+			}, -1-lf.k, 1, "newPos is rejected iff < 0")
 			lenMinus := map[string]int{"IndexPos.Length": 1}
 			for a, n := range vAtoms {
 				lenMinus[a] -= n
